@@ -75,6 +75,9 @@ type Case struct {
 	Order    []int `json:"order"` // completion order choices for gated cache writes
 	// Pal: index into palettes (0 = the default key values)
 	Pal int `json:"pal,omitempty"`
+	// Loop: a transaction history in a closed loop (vlib/gnmiloop.go, vlib/ncloop.go): the device changes because the
+	// datastore changes it, the real sync of the real target reports the changes back
+	Loop *vlib.HistCase `json:"loop,omitempty"`
 	// Dev: the notifications come from a device model behind one of the real targets (nil = harness-fed script)
 	Dev *DevCase `json:"dev,omitempty"`
 }
@@ -205,6 +208,15 @@ var prop = vlib.Prop[*Case]{
 		"oracle = after the script is drained and all writers returned (hook H4 + prune counters) CONFIG and STATE equal the sequential sync model: per path the latest notification wins, deletes are structural, paths absent from a completed cycle are gone, state leaves live in STATE when validation is on; " +
 		"non-trivial = the script deletes a name that is a textual prefix of another stored name, or two in-flight notifications touch the same path, or a cycle omits a stored path; distinct = distinct case JSON",
 	Gen: func(t *rapid.T) *Case {
+		switch os.Getenv("VERIF_C13_LOOP") {
+		case "nc":
+			return &Case{Loop: vlib.GenNCLoop(t)}
+		case "gnmi":
+			h := vlib.GenHistCase(t, vlib.HistGenOpts{Universe: vlib.UniLoop, MinSteps: 1, MaxSteps: 8, WithInit: true, AllowOrphan: true})
+			h.GNMI = rapid.SampledFrom([]string{"proto", "json", "json_ietf"}).Draw(t, "gnmi-encoding")
+			h.Loop = true
+			return &Case{Loop: h}
+		}
 		c := &Case{}
 		if rapid.IntRange(0, 7).Draw(t, "device-backed") == 3 || os.Getenv("VERIF_C13_DEV") != "" {
 			c.Dev = genDev(t)
@@ -403,6 +415,12 @@ func (m *syncModel) end() {
 }
 
 func Exec(c *Case) (nontrivial bool, labels []string, fail *vlib.Failure) {
+	if c.Loop != nil {
+		if strings.HasPrefix(c.Loop.GNMI, "nc:") {
+			return vlib.ExecNCLoop(c.Loop, "C13", false, nil)
+		}
+		return vlib.ExecGNMILoop(c.Loop, "C13", false)
+	}
 	palette = palettes[c.Pal%len(palettes)]
 	if c.Dev != nil {
 		return ExecDev(c)
